@@ -310,6 +310,9 @@ def tokens(ch, v, out, allow_stream=False):
         out.append(_tok(b"false"))
     elif isinstance(v, int):
         out.append(_tok(_int(ch, v)))
+    elif isinstance(v, float):
+        t = ("%.6f" % v).rstrip("0")
+        out.append(_tok((t + "0" if t.endswith(".") else t).encode()))
     elif isinstance(v, (bytes, bytearray)):
         if ch.plain or ch.choice(3) != 1:
             out.append(_tok(_litstring(ch, v)))
@@ -391,6 +394,8 @@ def expected(v):
         return ("bool", v)
     if isinstance(v, int):
         return ("int", v)
+    if isinstance(v, float):
+        return ("real", float("%.6f" % v))
     if isinstance(v, (bytes, bytearray)):
         return ("str", bytes(v))
     if isinstance(v, list):
